@@ -264,6 +264,37 @@ theorem groupOf_spec (groups : List (Nat × Nat)) (ibands : List Nat) (ib : Nat)
     unfold neededGroups at hm
     rw [hdisj m (List.mem_filter.1 hm).1 hp.2 hp.1]
 
+/-- T5' (column order).  The band axis of the tabulated array follows the selection AS GIVEN: as many columns as
+    entries (repetitions included), and column `j` is the value of the group of band `ibands[j]` — no sorting, no
+    merging of repeated entries. -/
+theorem tabBands_order {V : Type} (groups : List (Nat × Nat)) (ibands : List Nat) (values : Nat × Nat → V) :
+    (tabBands groups ibands values).length = ibands.length ∧
+    ∀ j (hj : j < ibands.length),
+      (tabBands groups ibands values)[j]? = some ((groupOf groups ibands ibands[j]).map values) := by
+  constructor
+  · simp [tabBands]
+  · intro j hj
+    simp [tabBands, List.getElem?_map, List.getElem?_eq_getElem hj]
+
+/-- … with non-overlapping groups that cover the selected bands: column `j` is exactly the group containing
+    `ibands[j]`, whatever the order of the selection -/
+theorem tabBands_column (groups : List (Nat × Nat)) (ibands : List Nat) (j : Nat) (hj : j < ibands.length)
+    (n : Nat × Nat) (hn : n ∈ groups) (hc : n.1 ≤ ibands[j] ∧ ibands[j] < n.2)
+    (hdisj : ∀ m ∈ groups, m.1 ≤ ibands[j] → ibands[j] < m.2 → m = n) :
+    (tabBands groups ibands id)[j]? = some (some n) := by
+  rw [(tabBands_order groups ibands id).2 j hj,
+    groupOf_spec groups ibands ibands[j] n hn hc (List.getElem_mem hj) hdisj]
+  rfl
+
+/-- 'sort (np.unique) the selection first' breaks it: for the selection [3,0,2] of four non-degenerate bands the
+    user's column 0 is band 3, the sorted variant returns band 0 there; a repeated entry loses a column. -/
+theorem unique_first_permutes_columns :
+    let groups := [(0, 1), (1, 2), (2, 3), (3, 4)]
+    tabBands groups [3, 0, 2] id = [some (3, 4), some (0, 1), some (2, 3)] ∧
+    tabBandsUnique groups [3, 0, 2] id = [some (0, 1), some (2, 3), some (3, 4)] ∧
+    (tabBands groups [2, 2, 0] id).length = 3 ∧ (tabBandsUnique groups [2, 2, 0] id).length = 2 := by
+  decide
+
 /-! ## T6 — components -/
 
 variable {F : Type} [Field F]
